@@ -175,7 +175,15 @@ func Apply(s *sim.Source, tree interface{}, n Node, op string, bank []BankEntry)
 			return set(opts[k])
 		case "uint", "int":
 			opts := []interface{}{uint64(0), uint64(1), uint64(0xffff), uint64(0xffffffff), uint64(0xffffffffffffffff), int64(-1)}
+			// the neighbours of the present value: off-by-one bounds (a threshold of exactly n, a round of final+1)
+			if u, isU := cur.(uint64); isU {
+				opts = append(opts, u+1, u+2)
+				if u > 0 {
+					opts = append(opts, u-1)
+				}
+			}
 			k := s.Draw(len(opts), "boundaryI")
+			res.Note = fmt.Sprintf(" ->%v", opts[k])
 			return set(opts[k])
 		}
 	case "drop":
